@@ -1,6 +1,8 @@
 package throttle
 
 import (
+	"context"
+	"sync"
 	"time"
 
 	"github.com/ozontech/file.d/metric"
@@ -169,5 +171,111 @@ func VerifH_C16_rules() {
 	vf.Assert(r.isMatch(ev) == want, "rule-matches-iff-all-conditions-hold")
 	if want {
 		vf.Reach("rule-matched")
+	}
+}
+
+// C16.H4: the map of limiters: keys never share a budget, a key in use keeps its counters while the
+// real maintenance loop (1 s ticker, expiration 3.5 s) runs, and two processors asking for the same
+// new key at once get the same limiter.
+func VerifH_C16_limitersMap() {
+	K := vf.Param("K", 4)
+	limit := int64(1 + vf.Choose("limit", 2))
+	frozen := verifBucketTime(0)
+	l := &limitersMap{
+		lims: map[string]*limiterWithGen{}, mu: &sync.RWMutex{},
+		curGen: time.Now().UnixMicro(), limitersExp: (3500 * time.Millisecond).Microseconds(),
+		nowFn:             func() time.Time { return frozen }, // one long bucket
+		limiterCfg:        &limiterConfig{backend: inMemoryBackend, bucketsCount: 1, bucketInterval: time.Hour},
+		limitDistrMetrics: &limitDistributionMetrics{},
+	}
+	rl := newRule(map[string]string{}, complexLimit{value: limit, kind: limitKindCount}, 0)
+	go l.maintenance(context.Background())
+
+	passed := map[string]int64{}
+	seen := map[string]int64{}
+	one := func(key string) {
+		lim, _ := l.getOrAdd(key, "", nil, rl)
+		allowed := lim.isAllowed(&pipeline.Event{Size: 1}, frozen)
+		vf.Atomic(func() {
+			seen[key]++
+			if allowed {
+				passed[key]++
+			}
+			if vf.Param("twin", 0) == 1 {
+				vf.Assert(passed[key] > limit, "passed-per-key-within-limit")
+				return
+			}
+			vf.Assert(passed[key] <= limit, "passed-per-key-within-limit")
+			// sequential callers get an exact answer; concurrent ones are checked by the bound above
+			if seen[key] <= limit {
+				vf.Assert(allowed, "not-rejected-while-under-the-limit")
+			}
+		})
+	}
+	if vf.Choose("two-processors-start-together", 2) == 1 {
+		done := 0
+		for g := 0; g < 2; g++ {
+			go func() { one("a"); done++ }()
+		}
+		vf.Quiesce(0)
+		vf.Assert(done == 2, "both-processors-returned")
+		vf.Reach("concurrent-first-use")
+	}
+	bFrom := vf.Choose("key-b-appears-in-round", K+1)
+	for i := 0; i < K; i++ {
+		// both keys stay in use: every 0.6 s, far below the expiration even when the scheduler is late
+		one("a")
+		if i >= bFrom {
+			one("b")
+		}
+		time.Sleep(600 * time.Millisecond)
+	}
+	vf.Reach("sequence-done")
+}
+
+// C16.H5: limit distribution on a ring of two buckets while the clock advances and late events
+// arrive: each bucket keeps its own counters per share.
+func VerifH_C16_distributionRing() {
+	K := vf.Param("K", 4)
+	total := int64(4)
+	ld, err := parseLimitDistribution(limitDistributionCfg{Field: "level", Enabled: true,
+		Ratios: []limitDistributionRatio{{Ratio: 0.5, Values: []string{"a"}}}}, total)
+	if err != nil {
+		vf.Fail("distribution-config")
+		return
+	}
+	const count = 2
+	nowID := 0
+	lim := newInMemoryLimiter(&limiterConfig{bucketsCount: count, bucketInterval: verifIval},
+		&complexLimit{value: total, kind: limitKindCount, distributions: ld}, verifDistrMetrics(), func() time.Time { return verifBucketTime(nowID) })
+	limA := total / 2
+	seenA := map[int]int64{} // events with the listed value booked per bucket id
+	curMax := 0
+	for i := 0; i < K; i++ {
+		if i > 0 {
+			nowID += vf.Choose("advance", 2)
+		}
+		evID := nowID - vf.Choose("late-by", 2)
+		allowed := lim.isAllowed(verifEvent(`{"level":"a"}`, 1), verifBucketTime(evID))
+		if i == 0 || nowID > curMax {
+			curMax = nowID
+		}
+		id := evID
+		if id < curMax-count+1 || id > curMax {
+			id = curMax
+		}
+		want := seenA[id]+1 <= limA
+		seenA[id]++
+		if vf.Param("twin", 0) == 1 {
+			vf.Assert(allowed == !want, "listed-value-share-per-bucket")
+			continue
+		}
+		vf.Assert(allowed == want, "listed-value-share-per-bucket")
+		if !allowed {
+			vf.Reach("share-exhausted")
+		}
+		if evID < nowID && id == evID {
+			vf.Reach("late-event-in-retained-bucket")
+		}
 	}
 }
